@@ -12,6 +12,12 @@ import KafkaVerif.Model.Batch
 import KafkaVerif.Model.ReaderLoop
 import KafkaVerif.Model.ReaderFront
 import KafkaVerif.Spec.Layout
+import KafkaVerif.Spec.ByteLayout
+import KafkaVerif.Spec.Crc
+import KafkaVerif.Model.ReaderLoopLTS
+import KafkaVerif.Model.PullReader
+import KafkaVerif.Model.ReaderWorld
+import KafkaVerif.Model.ByteReader
 
 namespace KV.OracleC02
 open KV KV.C02
@@ -147,6 +153,330 @@ def readerHolds (all final : List Rec) (positions : List Int) (lens : List Nat) 
     (final.filter (fun r => p ≤ r.1 && (isLast || (match seg.getLast? with | some l => r.1 ≤ l.1 | none => false)))).all (fun r => seg.contains r) &&
     (isLast || seg.length == lens.getD i 0)
 
+/-! ### op `tok`: bytes → tokens -/
+
+def lenPrefixed (b : Bytes) : Bytes := RW.beN 4 b.length ++ b
+
+/-- a nullable byte string: null has the length prefix 0xffffffff -/
+def optPrefixed : Option Bytes → Bytes
+  | none => RW.beN 4 0xffffffff
+  | some b => lenPrefixed b
+
+/-- the driver's `Digest`: crc32 of key, value, 8-byte timestamp, headers (null ≠ empty) -/
+def digestOf (key value : Option Bytes) (ts : Int) (hs : List Spec.RB.Hdr) : Nat :=
+  Crc.crc32 Crc.polyIEEE
+    (optPrefixed key ++ optPrefixed value ++ RW.beN 8 (RW.toU RW.M64 ts) ++
+      hs.flatMap (fun h => lenPrefixed h.key ++ optPrefixed h.value))
+
+def tokCfg : TokCfg :=
+  { crcs := { ieee := Crc.crc32 Crc.polyIEEE, castagnoli := Crc.crc32 Crc.polyCastagnoli },
+    dec := fun _ _ => none,
+    dg2 := fun fts r => digestOf r.key r.value (fts + r.tsDelta) r.headers,
+    dg1 := fun m => digestOf m.key m.value (if m.magic = 0 then -1 else m.ts) [] }
+
+/-- the byte-level Go reads (Model/ByteReader.lean: readVarInt / readInt8 / runFunc / readMessageHeader with the
+`remain` accounting) walking a message set of uncompressed v2 batches: the 61 header bytes, then `count` records, each
+with `remain` = what is left of the whole set; errShortRead ends the walk like it ends the batch -/
+def brWalk : Nat → Option (H2 × Nat) → Bytes → List Tok
+  | 0, _, _ => []
+  | fuel + 1, st, bs =>
+    if bs.isEmpty then []
+    else match st with
+      | none =>
+        match Spec.RB.magicOf bs with
+        | none => [.cut]
+        | some mg =>
+          if mg = 2 then
+            if bs.length < 61 then [.cut]
+            else match readH2 bs with
+              | none => [.cut]
+              | some (h, rest) =>
+                Tok.h2 h.base h.lod h.count.toNat (h.attrs % 8 != 0) h.plen ::
+                  brWalk fuel (if h.count.toNat = 0 then none else some (h, h.count.toNat)) rest
+          else
+            -- a v0/v1 message: the fixed header, then readMessageV1's `readBytesWith(key)`, `readBytesWith(val)`
+            if bs.length < (if mg = 1 then 26 else 18) then [.cut]
+            else match readH1 bs with
+              | none => [.cut]
+              | some (h, rest) =>
+                let ts : Int := if mg = 1 then (match RW.readI64 (bs.drop 18) with | some (t, _) => t | none => 0) else -1
+                Tok.h1 h.magic.toNat h.off (h.attrs % 8 != 0) ::
+                  if rest.isEmpty then [] else      -- nothing left: the stream ends, no `cut` token
+                  match BR.readBodyV1 ⟨rest, rest.length⟩ with
+                  | .error _ => [.cut]
+                  | .ok ((k, v), r') =>
+                    Tok.kv (digestOf k v ts []) (rest.length - r'.bs.length) :: brWalk fuel none r'.bs
+      | some (h, k) =>
+        match BR.readRecordV2 ⟨bs, bs.length⟩ with
+        | .error _ => [.cut]
+        | .ok (v, r') =>
+          Tok.r2 v.offDelta (digestOf v.key v.value (h.firstTs + v.tsDelta) (v.headers.map fun x => ⟨x.1, x.2⟩))
+              v.consumed.toNat ::
+            brWalk fuel (if k ≤ 1 then none else some (h, k - 1)) r'.bs
+
+/-! ### op `rtrace`: replay of the RL.* hook events of one fetcher through the loop LTS (Model/ReaderLoopLTS.lean) -/
+
+inductive TEv
+  | top (a : Nat) (o : Int) | cancel | init (cls : String) (start : Int) | offs (cls : String) (f l : Int)
+  | iter (e : Nat) (o : Int) | read (cls : String) (o c : Int) | msg (o : Int) | serr (cls : String)
+
+def parseTEv (s : String) : Option TEv :=
+  match s.splitOn ":" with
+  | ["Top", a, o] => do pure (.top (← a.toNat?) (← o.toInt?))
+  | ["Cancel", _] => some .cancel
+  | ["Cancel"] => some .cancel
+  | ["Init", c, st] => do pure (.init c (← st.toInt?))
+  | ["Offsets", c, f, l] => do pure (.offs c (← f.toInt?) (← l.toInt?))
+  | ["Iter", e, o] => do pure (.iter (← e.toNat?) (← o.toInt?))
+  | ["Read", c, o, co] => do pure (.read c (← o.toInt?) (← co.toInt?))
+  | ["Msg", o] => do pure (.msg (← o.toInt?))
+  | ["SendErr", c] => some (.serr c)
+  | _ => none
+
+structure Rep where
+  s : RR
+  pendOffs : Option (Int × Int) := none
+  d : List Rec := []
+  pendOOR : Bool := false
+  nerr : Nat := 0
+  bad : Option String := none
+  prop : Bool := false   -- the rejection is a failure of the property itself (wrong deliveries), not of the tie
+
+def sortedRecs : List Rec → Bool
+  | a :: b :: rest => a.1 < b.1 && sortedRecs (b :: rest)
+  | _ => true
+
+/-- the `Good` hypotheses of the loop theorems, evaluated on a recorded fetch round (`all`: every record the log ever
+held, `final`: what is left after log-start truncation) -/
+def goodDataB (all final : List Rec) (q : Int) (d : List Rec) (off' : Int) : Bool :=
+  sortedRecs d && d.all (fun r => all.contains r && q ≤ r.1 && r.1 < off') &&
+  final.all (fun r => !(q ≤ r.1 && r.1 < off') || d.contains r) && q ≤ off'
+
+def goodCutB (all final : List Rec) (q : Int) (d : List Rec) : Bool :=
+  sortedRecs d && d.all (fun r => all.contains r && q ≤ r.1) &&
+  final.all (fun r => !(q ≤ r.1 && d.any (fun x => r.1 ≤ x.1)) || d.contains r)
+
+def sleepIfDue (cfg : RCfg) (s : RR) : RR :=
+  if (s.phase == .top && s.attempt != 0 && !s.slept) || (s.phase == .reading && !s.slept) then rstep cfg s .sleepOk else s
+
+def fail (r : Rep) (why : String) : Rep := if r.bad.isSome then r else { r with bad := some why }
+def failProp (r : Rep) (why : String) : Rep := if r.bad.isSome then r else { r with bad := some why, prop := true }
+
+def kcode (cls : String) : Option Nat := if cls.startsWith "kafka" then (cls.drop 5).toString.toNat? else none
+
+/-- the scenario as the world model (Model/ReaderWorld.lean) needs it: the stored layout (and the one left after the
+scripted log-start truncation), the broker's byte budgets, the high watermark -/
+structure WCtx where
+  layouts : List (List Item)
+  budgets : List Nat
+  hwm : Int
+
+def sizeOfItems (items : List Item) : Nat := (items.map Item.size).foldl (· + ·) 0
+
+/-- the recorded fetch round is what `worldEvent` computes (broker serving under the fetch contract + the decoder as
+written) for one of the scripted budgets -/
+def worldFetchMatches (w : WCtx) (s : RR) (e : Bool) (d : List Rec) (c : Int) (oc : Outcome) : Bool :=
+  w.layouts.any fun items => w.budgets.any fun b =>
+    match worldEvent items s (.fetch b w.hwm e) with
+    | .data d' c' oc' => d' == d && c' == c && oc' == oc
+    | _ => false
+
+/-- the recorded deliveries of a round whose connection was lost are what `worldEvent` computes for some byte count -/
+def worldLostMatches (w : WCtx) (s : RR) (d : List Rec) : Bool :=
+  w.layouts.any fun items => (List.range (sizeOfItems (dropBefore s.connOff items) + 2)).any fun n =>
+    match worldEvent items s (.lost n w.hwm false) with
+    | .cutAfter d' => d' == d
+    | _ => false
+
+def replayStep (cfg : RCfg) (w : WCtx) (all final : List Rec) (r : Rep) (e : TEv) : Rep :=
+  if r.bad.isSome then r else
+  match e with
+  | .top a o =>
+    if r.s.phase == .top && r.s.attempt == a && r.s.offset == o then r
+    else fail r s!"top: recorded attempt={a} offset={o}, model attempt={r.s.attempt} offset={r.s.offset}"
+  | .cancel =>
+    let s' := rstep cfg r.s .sleepCancel
+    if s'.phase == .stopped then { r with s := s' } else fail r "cancel: the model is not in a backoff sleep"
+  | .offs cls f l =>
+    if r.s.phase == .top then (if cls == "nil" then { r with pendOffs := some (f, l) } else r)
+    else if r.pendOOR then
+      let ev : REv := if cls == "nil" then .kerr 1 (some (f, l)) else .kerr 1 none
+      if cls == "nil" && !(final.all (fun x => f ≤ x.1)) then fail r s!"OffsetOutOfRange: first offset {f} is above a stored record"
+      else { r with s := rstep cfg r.s ev, pendOOR := false }
+    else fail r "offsets: unexpected"
+  | .init cls start =>
+    let s0 := sleepIfDue cfg r.s
+    if cls == "nil" then
+      match r.pendOffs with
+      | none => fail r "init ok without offsets"
+      | some (f, l) =>
+        let s' := rstep cfg s0 (.initOk f l)
+        if !(0 ≤ f && f ≤ l && final.all (fun x => f ≤ x.1)) then fail r s!"initialize: first={f} last={l} not a valid range below the stored records"
+        else if s'.phase == .reading && s'.offset == start && s'.connOff == start then { r with s := s', pendOffs := none }
+        else fail r s!"initialize: recorded start={start}, model phase/offset/conn={repr s'.phase}/{s'.offset}/{s'.connOff}"
+    else { r with s := rstep cfg s0 (.initFail (cls == "kafka1")), pendOffs := none }
+  | .iter e o =>
+    if r.s.phase == .reading && r.s.errcount == e && r.s.offset == o then r
+    else fail r s!"iter: recorded errcount={e} offset={o}, model phase={repr r.s.phase} errcount={r.s.errcount} offset={r.s.offset}"
+  | .msg o =>
+    match all.find? (fun x => x.1 == o) with
+    | some x => { r with d := r.d ++ [x] }
+    | none => failProp r s!"message {o} is not a stored record"
+  | .read cls o c =>
+    let s0 := sleepIfDue cfg r.s
+    let q := s0.connOff
+    let r0 := { r with d := [] }
+    if cls == "nil" || cls == "eof" || cls == "kafka7" then
+      if !(goodDataB all final q r.d c) then failProp r s!"fetch round at {q}: delivered {r.d.map (·.1)} conn offset after {c}: not the stored records of [{q},{c})"
+      else if !w.budgets.isEmpty && !(cls == "kafka7" && r.d.isEmpty && c == q)       -- an error answer RequestTimedOut looks the same
+          && !(worldFetchMatches w s0 (cls == "kafka7") r.d c (if cls == "kafka7" then .timedOut else .eof))
+          && !(worldLostMatches w s0 r.d) then                                        -- the scripted `cut` fault truncates anywhere
+        fail r s!"fetch round at {q}: delivered {r.d.map (·.1)}, conn offset after {c}, {cls}: not what the world model (serve + decoder as written) computes for any scripted budget"
+      else
+        let s' := rstep cfg s0 (.data r.d c (if cls == "kafka7" then .timedOut else .eof))
+        if s'.offset == o && s'.connOff == c then { r0 with s := s' }
+        else fail r s!"read: recorded offset={o} conn={c}, model offset={s'.offset} conn={s'.connOff}"
+    else if cls == "kafka1" then
+      if r.d.isEmpty then { r0 with s := s0, pendOOR := true } else fail r "OffsetOutOfRange after messages"
+    else if cls == "canceled" then
+      -- the messages of the round that were handed on before the context was cancelled
+      if !(goodCutB all final q r.d) then failProp r s!"cancelled round at {q}: delivered {r.d.map (·.1)}: not an initial segment of the stored records"
+      else { r0 with s := rstep cfg s0 (.ctxCanceled r.d) }
+    else if cls == "unknowncodec" then { r0 with s := rstep cfg s0 .unknownCodec }
+    else match kcode cls with
+      | some code => { r0 with s := rstep cfg s0 (.kerr code none) }
+      | none =>
+        if r.d.isEmpty then { r0 with s := rstep cfg s0 .ioErr }
+        else if !(goodCutB all final q r.d) then failProp r s!"lost connection at {q}: delivered {r.d.map (·.1)}: not an initial segment of the stored records"
+        else if !w.budgets.isEmpty && !(worldLostMatches w s0 r.d) then
+          fail r s!"lost connection at {q}: delivered {r.d.map (·.1)}: not what the world model computes for any number of bytes"
+        else
+          let s' := rstep cfg s0 (.cutAfter r.d)
+          if s'.offset == o then { r0 with s := s' } else fail r s!"read(cut): recorded offset={o}, model offset={s'.offset}"
+  | .serr _ => { r with nerr := r.nerr + 1 }
+
+/-! ### op `ftrace`: the Reader front (version tags) -/
+
+inductive FTEv
+  | start (v : Nat) (o : Int) | enq (v : Nat) (off : Int) | accept (ver mver : Nat) (off : Int) (isErr : Bool)
+  | drop (ver mver : Nat) | setOffset (o roff : Int) (v : Nat) (closed : Bool)
+
+def parseFTEv (s : String) : Option FTEv :=
+  match s.splitOn ":" with
+  | ["Start", v, o] => do pure (.start (← v.toNat?) (← o.toInt?))
+  | ["Enq", v, off] => do pure (.enq (← v.toNat?) (← off.toInt?))
+  | ["Accept", a, b, off, e] => do pure (.accept (← a.toNat?) (← b.toNat?) (← off.toInt?) (e == "true"))
+  | ["Drop", a, b] => do pure (.drop (← a.toNat?) (← b.toNat?))
+  | ["SetOffset", o, ro, v, c] => do pure (.setOffset (← o.toInt?) (← ro.toInt?) (← v.toNat?) (c == "true"))
+  | _ => none
+
+structure FRep where
+  version : Nat := 0                      -- r.version as far as the trace tells
+  starts : List (Nat × Int) := []          -- fetchers: tag, start offset (resolved)
+  enqs : List (Nat × Int) := []            -- (tag, offset) in recorded order
+  accepts : List (Nat × Int) := []         -- accepted messages (tag, offset) in order
+  pendSet : Option Int := none             -- a SetOffset that must be followed by a start at this offset
+  pos : Option Int := none                 -- r.offset (`Reader.Offset()`) as the API model `astep` tracks it
+  bad : Option String := none
+  prop : Bool := false
+
+def ffail (r : FRep) (p : Bool) (why : String) : FRep := if r.bad.isSome then r else { r with bad := some why, prop := p }
+
+/-- the offset of the first stored record at or above `pos` (`ASpec`, `reader_api`) -/
+def firstAtOrAbove (l : List Rec) (pos : Int) : Option Int := (l.find? (fun x => pos ≤ x.1)).map (·.1)
+
+def fReplay (first hwm : Int) (all final : List Rec) (r : FRep) (e : FTEv) : FRep :=
+  if r.bad.isSome then r else
+  match e with
+  | .start v o =>
+    let o' := if o = -2 then first else if o = -1 then hwm else o
+    let r1 := match r.pendSet with
+      | some p => if p = o then { r with pendSet := none } else ffail r false s!"start at {o} after SetOffset({p})"
+      | none => r
+    let r1 := if r1.pos.isNone then { r1 with pos := some o } else r1          -- the lazy start is at r.offset
+    if v = r.version + 1 then { r1 with version := v, starts := r1.starts ++ [(v, o')] }
+    else ffail r1 false s!"fetcher started with tag {v}, previous version {r.version}"
+  | .enq v off =>
+    if r.starts.any (·.1 == v) then { r with enqs := r.enqs ++ [(v, off)] } else ffail r false s!"message {off} enqueued with unknown tag {v}"
+  | .accept ver mver off isErr =>
+    if isErr then r
+    else if mver < ver then ffail r true s!"FetchMessage returned message {off} with stale tag {mver} < {ver}"
+    else if mver != r.version then ffail r true s!"FetchMessage returned message {off} of fetcher {mver}, current version {r.version}"
+    else
+      -- `reader_api`: FetchMessage returns the first stored record at or above Offset(), Offset() becomes its offset + 1
+      let r := match r.pos with
+        | some p =>
+          if p != -1 && firstAtOrAbove all p != some off && firstAtOrAbove final p != some off then
+            ffail r true s!"FetchMessage returned {off}; Offset() was {p}, the first stored record at or above it is {firstAtOrAbove final p}"
+          else r
+        | none => r
+      { r with accepts := r.accepts ++ [(mver, off)], pos := some (off + 1) }
+  | .drop ver mver => if mver < ver then r else ffail r false s!"message with tag {mver} dropped by a call that captured version {ver}"
+  | .setOffset o roff v closed =>
+    if closed then r
+    else
+      -- Offset() as the model tracks it is what the code holds in r.offset
+      let r := match r.pos with
+        | some p => if p != roff then ffail r false s!"SetOffset({o}): r.offset is {roff}, the API model's Offset() is {p}" else r
+        | none => r
+      let r := { r with pos := some (if o = roff then roff else o) }
+      if o = roff || v = 0 then r               -- no-op / lazy start
+      else { r with pendSet := some o }
+
+/-- every fetcher enqueues, in order, the stored records at or above its start offset; what FetchMessage accepted from
+a fetcher is a prefix of what that fetcher enqueued -/
+def fCheck (all final : List Rec) (r : FRep) : FRep :=
+  r.starts.foldl (fun (r : FRep) (st : Nat × Int) =>
+    let enq := (r.enqs.filter (·.1 == st.1)).map (·.2)
+    let acc := (r.accepts.filter (·.1 == st.1)).map (·.2)
+    let storedAll := (all.map (·.1)).filter (fun x => st.2 ≤ x)
+    let last := enq.getLast?.getD (st.2 - 1)
+    let mustHave := (final.map (·.1)).filter (fun x => st.2 ≤ x && x ≤ last)
+    if !(enq.all (fun x => storedAll.contains x)) then ffail r true s!"fetcher {st.1} (start {st.2}) enqueued {enq}: not stored records at or above its start"
+    else if !(sortedRecs (enq.map (fun x => (x, 0)))) then ffail r true s!"fetcher {st.1} enqueued {enq}: not in increasing order"
+    else if !(mustHave.all (fun x => enq.contains x)) then ffail r true s!"fetcher {st.1} (start {st.2}) enqueued {enq}: skipped a stored record"
+    else if acc != enq.take acc.length then ffail r true s!"accepted from fetcher {st.1}: {acc}, enqueued: {enq}"
+    else r) r
+
+/-! ### op `pullfuzz`: the pull model against the token machine on arbitrary (mostly malformed) token streams -/
+
+def lcg (s : Nat) : Nat := (s * 6364136223846793005 + 1442695040888963407) % 18446744073709551616
+
+def fuzzTok (s : Nat) : Tok × Nat :=
+  let s1 := lcg s; let s2 := lcg s1; let s3 := lcg s2; let s4 := lcg s3
+  let k := (s1 / 65536) % 9
+  let a : Int := Int.ofNat ((s2 / 65536) % 12)
+  let b : Int := Int.ofNat ((s3 / 65536) % 4)
+  let c := (s4 / 65536) % 3
+  let t : Tok := match k with
+    | 0 => .h2 a b c false (c * 5)
+    | 1 => .h2 a b (c + 1) true 7
+    | 2 => .r2 b 1 5
+    | 3 => .z2 7 ((List.range (c + 1)).map fun (i : Nat) => (Int.ofNat i, i, 5))
+    | 4 => .h1 (c % 2) a false
+    | 5 => .h1 1 a true
+    | 6 => .kv 3 4
+    | 7 => .zv 9 ((List.range (c + 1)).map fun (i : Nat) => (Int.ofNat i, i))
+    | _ => .cut
+  (t, s4)
+
+def fuzzToks : Nat → Nat → List Tok × Nat
+  | 0, s => ([], s)
+  | n + 1, s => let (t, s') := fuzzTok s; let (ts, s'') := fuzzToks n s'; (t :: ts, s'')
+
+/-- number of (stream, start offset, expired) triples on which the token machine does not desynchronise and the pull
+model gives another result (must be 0), and the number of such triples examined -/
+def pullFuzz : Nat → Nat → Nat → Nat → Nat × Nat
+  | 0, _, bad, seen => (bad, seen)
+  | n + 1, s, bad, seen =>
+    let (toks, s') := fuzzToks (lcg s % 8) (lcg s)
+    let (bad, seen) := [(0, false), (3, false), (6, true)].foldl (fun (acc : Nat × Nat) (p : Nat × Bool) =>
+      let a := readAll .fixed p.2 (Int.ofNat p.1) 100 toks
+      let b := Pull.readAll p.2 (Int.ofNat p.1) 100 toks
+      if a.2.2 == .desync then acc
+      else if a.1 == b.1 && a.2.1 == b.2.1 && a.2.2 == b.2.2 then (acc.1, acc.2 + 1) else (acc.1 + 1, acc.2 + 1)) (bad, seen)
+    pullFuzz n s' bad seen
+
 def variantOf (op : String) : Variant := if op.startsWith "legacy-" then .legacy else .fixed
 
 def step (line : String) : String :=
@@ -163,6 +493,10 @@ def step (line : String) : String :=
         match fieldInt ws "o", fieldInt ws "hwm", fieldInt ws "cut", (field ws "L").bind parseLayout with
         | some o, some hwm, some cut, some items =>
           let (d, off, r) := readAll v expired o hwm (responseTokens items cut)
+          -- the statement-by-statement pull model (Model/PullReader.lean) must agree with the token machine
+          let (pd, poff, pr) := Pull.readAll expired o hwm (responseTokens items cut)
+          if v == .fixed && !(pd == d && poff == off && pr == r) then
+            answer s!"pull-model-differs: {showResult pd poff pr.show} vs {showResult d off r.show}" false else
           let i' := if expired && i.out == "kafka7" then { i with out := "eof" } else i
           answer (showResult d off r.show) (fetchHolds items cut o hwm i' && (!expired || i.out == "kafka7" || i.out == "unexpectedEOF"))
         | _, _, _, _ => "bad-op"
@@ -177,7 +511,62 @@ def step (line : String) : String :=
         | _, _, _, _ => "bad-op"
       else "bad-op"
     | some op, none =>
-      if op == "reader" || op == "legacy-reader" then
+      if op == "pullfuzz" then
+        match fieldInt ws "seed", fieldInt ws "n" with
+        | some seed, some n =>
+          let (bad, seen) := pullFuzz n.toNat (seed.toNat * 7919 + 12345) 0 0
+          if seen == 0 then answer "nothing-examined" false else answer s!"mismatches={bad}" (bad == 0)
+        | _, _ => "bad-op"
+      else if op == "ftrace" then
+        match (field ws "L").bind parseLayout, fieldInt ws "first", fieldInt ws "hwm",
+              (field ws "T").map (fun t => (t.splitOn ";").map parseFTEv) with
+        | some items, some first, some hwm, some evs =>
+          if evs.any (·.isNone) then "bad-op" else
+          let all := allRecords items
+          let final := match (field ws "truncn").bind (·.toNat?) with
+            | some tn => allRecords (items.drop tn)
+            | none => all
+          let r := fCheck all final ((evs.filterMap id).foldl (fReplay first hwm all final) {})
+          match r.bad with
+          | none => answer "ok" true
+          | some why => answer s!"rejected: {why}" (!r.prop)
+        | _, _, _, _ => "bad-op"
+      else if op == "rtrace" then
+        match (field ws "L").bind parseLayout, (field ws "T").map (fun t => (t.splitOn ";").map parseTEv) with
+        | some items, some evs =>
+          if evs.any (·.isNone) then "bad-op" else
+          let evs := evs.filterMap id
+          let all := allRecords items
+          let final := match (field ws "truncn").bind (·.toNat?) with
+            | some tn => allRecords (items.drop tn)
+            | none => all
+          let budgets := ((field ws "budgets").bind (fun s => (s.splitOn ",").mapM (·.toNat?))).getD []
+          let w : WCtx := { layouts := match (field ws "truncn").bind (·.toNat?) with
+                                       | some tn => [items, items.drop tn]
+                                       | none => [items],
+                            budgets := budgets, hwm := (fieldInt ws "hwm").getD 0 }
+          match evs with
+          | .top _ o :: _ =>
+            let r := evs.foldl (replayStep {} w all final) { s := { offset := o } }
+            let r := if r.bad.isNone && r.nerr != r.s.errors.length then fail r s!"errors sent: recorded {r.nerr}, model {r.s.errors.length}" else r
+            match r.bad with
+            | none => answer "ok" true
+            | some why => answer s!"rejected: {why}" (!r.prop)
+          | _ => answer "rejected: trace does not start at the head of the loop" false
+        | _, _ => "bad-op"
+      else if op == "tok" then
+        match (field ws "hex").bind ofHex, (field ws "L").bind parseLayout with
+        | some bytes, some items =>
+          let expected := truncate (allTokens items) bytes.length
+          let actual := tokenize tokCfg (bytes.length + 1) .hdr bytes
+          let plainV2 := items.all fun it => match it with | .b2 _ _ false _ _ => true | .m .. => true | _ => false
+          let go := brWalk (bytes.length + 1) none bytes
+          if plainV2 && go != expected then
+            answer s!"go-bytes-diff:{repr (go.zip expected |>.find? (fun p => p.1 != p.2))}" false
+          else if actual == expected then answer "same" true
+          else answer s!"diff:{repr (actual.zip expected |>.find? (fun p => p.1 != p.2))}" false
+        | _, _ => "bad-op"
+      else if op == "reader" || op == "legacy-reader" then
         let v := variantOf op
         let iw := words impl
         match fieldInt ws "v", field ws "start", fieldInt ws "hwm", (field ws "L").bind parseLayout,
@@ -193,7 +582,7 @@ def step (line : String) : String :=
             | none => none
           let withFirst := items.zip firsts
           let logFirst := (firsts.head?).getD hwm
-          let startOff : Int := if start == "first" then -1 else if start == "last" then -2 else (start.toInt?).getD 0
+          let startOff : Int := if start == "first" then -2 else if start == "last" then -1 else (start.toInt?).getD 0
           let all := allRecords items
           let final := match trunc with
             | some (_, tn) => allRecords (items.drop tn)
